@@ -2,6 +2,7 @@
    Property theorems only; each is closed by [exact] of a lemma proved in theories/Align/CandProofs.v. *)
 From Coq Require Import List Arith ZArith.
 From PGA Require Import Align.Tuples Align.Cover Align.Inst Align.CandProofs.
+From PGAgen Require Import ConstGen.
 Import ListNotations.
 
 (* the enumeration of index tuples is complete, duplicate-free, and ends with the all-null tuple *)
@@ -25,6 +26,13 @@ Proof. exact (candidates_spec I). Qed.
 Theorem C07_buffered_eq_plain c0 g I : 1 <= g -> 1 <= c0 / g ->
   candidates_buf c0 g I = Some (candidates I).
 Proof. exact (candidates_buf_eq c0 g I). Qed.
+
+(* ... in particular for the constants of the CURRENT source (gen/ConstGen.v is regenerated from dissimilarity.py on every run, so this
+   obligation is re-proved against what the code says now: a change of the initial capacity or of the growth rule that violates the hypothesis,
+   or that the translator no longer recognises, breaks it) *)
+Theorem C07_buffered_eq_plain_code_constants I :
+  candidates_buf (N.to_nat chunk_size) (N.to_nat growth_divisor) I = Some (candidates I).
+Proof. apply candidates_buf_eq; apply Nat.leb_le; vm_compute; reflexivity. Qed.
 
 (* the verified judge applied to the library's output on every explored case *)
 Theorem C07_judge_sound I gray tol lib : (0 <= gray)%Z -> c07_check I gray tol lib = None ->
